@@ -239,7 +239,7 @@ pub fn run(ctx: &mut Ctx) {
     for (n, ok) in r9::selftest(ctx.shard == 0) {
         ctx.selftest(&n, ok);
     }
-    ctx.require(&["annex_kat", "honest_keys_equal", "tampered_keys_differ", "responder_rejects_offcurve_RA", "initiator_rejects_offcurve_RB", "tamper=RaOther", "tamper=RbOther", "tamper=RaBitflipOnCurve", "tamper=RbNeg", "klen=1", "klen=128", "parties_have_public_master_key_only", "sparse_ephemeral_scalars", "kdf_direct", "ke=H1(id)_doubling_in_Q", "sk_all_zero_retry_path", "crafted_valid_R_A", "id_beyond_2^16_bits", "same_id_both_parties", "many_calls_one_process", "id_length_sweep", "id_with_nul_bytes"]);
+    ctx.require(&["annex_kat", "interleaved_opposite_master_keys", "honest_keys_equal", "tampered_keys_differ", "responder_rejects_offcurve_RA", "initiator_rejects_offcurve_RB", "tamper=RaOther", "tamper=RbOther", "tamper=RaBitflipOnCurve", "tamper=RbNeg", "klen=1", "klen=128", "parties_have_public_master_key_only", "sparse_ephemeral_scalars", "kdf_direct", "ke=H1(id)_doubling_in_Q", "sk_all_zero_retry_path", "crafted_valid_R_A", "id_beyond_2^16_bits", "same_id_both_parties", "many_calls_one_process", "id_length_sweep", "id_with_nul_bytes"]);
     let pr = r9::params();
     let mut paux = ctx.prng("aux");
     if ctx.shard == 0 {
@@ -318,6 +318,26 @@ pub fn run(ctx: &mut Ctx) {
         }
     } else {
         ctx.class("many_calls_one_process");
+    }
+    // --- master keys alternating on one thread; every other pair is opposite (ke, N - ke: the two public keys share x)
+    {
+        let nh = ctx.n(4, 64);
+        let mut pi = ctx.prng("interleave");
+        for i in 0..nh {
+            let sub = pi.next();
+            if !ctx.mine(i) {
+                continue;
+            }
+            let mut p = Prng::new(sub, "i");
+            let kea = rand_scalar(&mut p, &(&pr.n - 1u32));
+            let keb = if i % 2 == 0 { &pr.n - &kea } else { rand_scalar(&mut p, &(&pr.n - 1u32)) };
+            for step in 0..4 {
+                let ke = if step % 2 == 0 { &kea } else { &keb };
+                let (ra, rb) = (rand_scalar(&mut p, &(&pr.n - 1u32)), rand_scalar(&mut p, &(&pr.n - 1u32)));
+                ctx.class(if i % 2 == 0 { "interleaved_opposite_master_keys" } else { "interleaved_master_keys" });
+                history(ctx, ke, b"Alice", b"Bob", 16 + (step & 1), &ra, &rb, Tamper::None, &mut p);
+            }
+        }
     }
     // --- the SM9 KDF itself (hook wrapper): every klen 1..=300 plus block-counter boundaries
     {
